@@ -64,8 +64,9 @@ class C06(Check):
     rule = ("(a) every element graph over {device, attestation, ui, signer}: each element absent or "
             "present with signed_by in {root, device, attestation, ui, signer} and tweak present/absent "
             "(11^4 shapes incl. cycles, self-signing, dangling parents), every non-empty subset of "
-            "present elements as targets, genuine keys/signatures, right root and wrong root; "
-            "(b) every path of 1..4 distinct elements x every tweak pattern x every element of the "
+            "present elements as targets (quick, four elements: singletons and all four), genuine keys/signatures, right root and wrong root; "
+            "(b) every path of 1..4 distinct elements x every tweak pattern (quick, 4 elements: none / all / "
+            "alternating) x every element of the "
             "path x every single-point corruption (one bit per byte position of message, signature, "
             "tweak, embedded certifier key (parent re-signed); swapped signatures; signature by an "
             "unrelated key, by every other key of the hierarchy, by the parent of the parent; tweak "
@@ -139,10 +140,11 @@ class C06(Check):
 
     def bounds(self):
         return {"element_names": 4, "shapes": 11 ** 4, "paths": len(self.paths),
-                "tweak_patterns_per_path": "2^len", "forests": len(self.forests),
+                "tweak_patterns_per_path": "2^len" if self.thorough else "2^len (4-element paths: none/all/alternating)",
+                "target_subsets": "all non-empty" if self.thorough else "all non-empty; of four elements only singletons and all four", "forests": len(self.forests),
                 "bit_positions": "every byte" if self.thorough else "first/last/every 8th byte",
                 "forest_tweak_patterns": "all" if self.thorough else "none/all/alternating",
-                "forest_target_lists": "all subsets + reversed" if self.thorough else "all, reversed, pairs"}
+                "forest_target_lists": "all subsets + reversed" if self.thorough else "all, reversed, pairs (four elements: 4 of the 6 pairs)"}
 
     def alphabets(self):
         return {"signed_by": PARENTS, "corruptions": [
@@ -156,7 +158,12 @@ class C06(Check):
             for b in range(len(OPTIONS)):
                 cs.append({"kind": "shapes", "a": a, "b": b})
         for i, p in enumerate(self.paths):
-            for mask in range(1 << len(p)):
+            n = len(p)
+            full = (1 << n) - 1
+            # quick: on the 4-element paths only the patterns none / all / alternating, which still
+            # give every (tweak of the element, tweak of its parent) combination at every position
+            masks = range(1 << n) if (self.thorough or n < 4) else sorted({0, full, 0b0101, 0b1010})
+            for mask in masks:
                 cs.append({"kind": "path", "path": i, "mask": mask})
         for i in range(len(self.forests)):
             cs.append({"kind": "forest", "idx": i})
@@ -220,6 +227,8 @@ class C06(Check):
                 if not present:
                     continue
                 for r in range(1, len(present) + 1):
+                    if len(present) == 4 and r in (2, 3) and not self.thorough:
+                        continue        # quick: singletons and all four (pairs: part (c))
                     for targets in itertools.combinations(present, r):
                         doc = self.doc_of(shape, targets)
                         exp = self.evaluate(doc, root, "genuine", stats, vs)
@@ -382,8 +391,11 @@ class C06(Check):
             tlists.append(tuple(names))
             if n > 1:
                 tlists.append(tuple(reversed(names)))
-            if n > 2:
+            if n == 3:
                 tlists.extend(itertools.combinations(names, 2))
+            elif n == 4:
+                tlists.extend([(names[0], names[1]), (names[1], names[2]), (names[2], names[3]),
+                               (names[3], names[0])])
         for mask in masks:
             shape = [(nm, forest[nm], bool(mask >> i & 1)) for i, nm in enumerate(names)]
             base = self.doc_of(shape, names)
